@@ -2,6 +2,9 @@ package main
 
 // propRules: which rules decide which property.
 var propRules = map[string][]ruleSpec{
+	"C12": {
+		{"R13", "weight decoding tables D1-D3 and gates D4-D6", ruleR13},
+	},
 	"C01": {
 		{"R5", "Run/applyOp plumbing M2-M9, M13", ruleR5},
 		{"R2", "registry and constructor freshness (M12)", ruleR2},
